@@ -538,10 +538,10 @@ func (p Plan) Normalize() Plan {
 		}
 	}
 	p.Stmts = out
-	if p.CancelAfter >= 0 && p.reachesEnd() && p.End == EndNil {
-		// keep the variant one-directional: after a cancel the body never reports success
-		p.End = EndErrCanceled
-	}
+	// (until seed C14j the variant was kept one-directional here: a body that reached its end after the
+	// cancel never reported success.  The transaction is begun without the context (db.Begin), so the
+	// statement applies unchanged: a body that returns nil - whatever happened to the caller's context
+	// meanwhile - is followed by exactly one Commit, and nil is returned iff that Commit succeeded.)
 	return p
 }
 
